@@ -161,6 +161,16 @@ CLAIMED = {
         note=TRUST + " `stable_state_preserved` needs no `x` constants. The proof exposed a collision introduced by an earlier "
              "repair (output named like a copy node), since repaired again (see KNOWN_FINDINGS).",
         ref="§4 C18"),
+    "C13": dict(
+        technique="Lean 4 theorems by induction on the width (ripple-carry invariant, select-line decoding, popcount queue "
+                  "invariant) about line-by-line models of the generators + exact correspondence of the generated circuits + "
+                  "exhaustive/random simulation search",
+        text="Proof: `adder_correct` (every width, both carry options: lint-clean, outputs a+b+cin mod 2^w and the carry-out), "
+             "`mux_correct` (every width >= 1), `popcount_correct` (every width >= 1), `half_adder_correct`, `full_adder_correct`, "
+             "`clog2_spec`, `clog2_rejects_zero`, `bin_roundtrip`, `bin_roundtrip_any` — no bound on the width. The generated "
+             "circuits are compared node-for-node (in order) with what logic.py builds for widths 0..12 (quick) / 0..40.",
+        note=TRUST,
+        ref="§4 C13"),
 }
 
 NOT_YET = "check not built yet in this round (see DESIGN.md §4 for the plan); will be claimed when its Lean model and harness exist"
